@@ -3,7 +3,7 @@
 # count (split over shards), shards = parallel processes with different PRNG values.
 
 PROPS = {}
-HOOK_COMMITS = ["47c42dd"]
+HOOK_COMMITS = ["47c42dd", "a2d506f"]
 NOT_CLAIMED = {}
 
 
@@ -220,3 +220,25 @@ prop("C14",
      level_note="Trusted: harness/mredis (SELECT/EXISTS/HGETALL/HDEL/INFO keyspace) and the reference rule in c14_test.go. Equal offsets in two dbs are not generated (offsets are strictly increasing per source).",
      assumptions=["source addresses are host:port strings",
                   "the target is standalone (cluster checkpoint naming is covered by C15)"])
+
+prop("C20",
+     title="Source re-discovery selects a node that really is the master",
+     timing=True,
+     quick=[{"re": "^TestC20$", "checks": 1, "timeout": 300},
+            {"re": "^TestC20Syncer$", "checks": 400}],
+     thorough=[{"re": "^TestC20$", "checks": 48, "shards": 12, "timeout": 1700},
+               {"re": "^TestC20Syncer$", "checks": 40000, "shards": 4, "timeout": 1700}],
+     rule="one rapid case = a batch of 80-120 shard scripts run concurrently (the retry back-off sleeps 6+5+..+1 s, so a case costs ~21 s of wall "
+          "time whatever its size): 1-6 nodes in any order (the configured source need not be the master), and for each node and each of the 7 "
+          "attempts one of {master, slave, connect error, command error, INFO without role line, INFO with look-alike lines before the role line}; "
+          "shapes: one master, promoted replica with dead old source, master appearing at attempt j, no master, several masters, fully random. "
+          "The real slotSupervisor (maxRetries as in New) runs with an injected connection factory (hook). Oracle per script: error iff no node "
+          "reports master in any attempt, and then every node was probed exactly 7 times; otherwise Source reported master in the first attempt "
+          "that had one, Source+Slaves == the known nodes each once, unreachable/erroring nodes never chosen, elapsed <= back-off bound + 8 s. "
+          "(syncer) the DbSyncer's own use at (re)start: 2-4 model nodes over TCP, a generated sequence of 1-5 fail-overs (roles reassigned, some nodes "
+          "without a role line), updateSlotTopology after each: the syncer must hold the current master as source and every other node as replica. "
+          "Non-trivial: master not first, or >=1 failing node, or no master; syncer sequence with >=2 master changes. Distinct = hash of the script.",
+     technique="property-based testing (rapid) with generated per-node fault sequences injected through a connection factory; validity-predicate oracle over the returned topology",
+     level_text="Generated fault sequences over the whole retry loop, batched to amortise the fixed back-off sleeps; about a hundred topologies per quick run, thousands in thorough.",
+     level_note="Trusted: the script interpreter (factory) in c20_test.go. Hook: slotsupervisor.VerifNew replaces only the connection factory. updateSlotTopology's use of the result at sync start is exercised in the end-to-end checks, not here.",
+     assumptions=["INFO replication replies are CRLF separated (as Redis emits them)"])
